@@ -8,6 +8,7 @@
 -/
 import NxsModel.Requests
 import NxsModel.Info
+import NxsModel.Gen.Comm
 namespace Nxs
 namespace Config
 open Requests
@@ -84,13 +85,13 @@ def devApplyDiv (d : Device) (frame : Bytes) : Device :=
   | .error _ => d
 
 /-- does the client see a positive acknowledgement? (`_get_ack`) and what does waiting cost -/
-def ackSeen (c : Client) (o : Outcome) : Bool × Nat :=
+def ackSeen (c : Client) (o : Outcome) (timeout : Nat) : Bool × Nat :=
   if !c.ackSupported then (true, 0)
   else match o with
     | .ack => (true, 0)
     | .nack _ => (false, 0)
-    | .appliedAckLost => (false, 10)
-    | .lost => (false, 10)
+    | .appliedAckLost => (false, timeout)
+    | .lost => (false, timeout)
 
 def applies : Outcome → Bool
   | .ack | .appliedAckLost => true
@@ -108,7 +109,7 @@ def writeEnable (c : Client) (d : Device) (o : Outcome) : Client × Device × St
   | .error e => (c, d, { err := some e })
   | .ok f =>
     let d' := if applies o then devApplyEn d f else d
-    let (seen, t) := ackSeen c o
+    let (seen, t) := ackSeen c o Gen.Comm.ackTimeoutEnable
     if seen then
       ({ c with enResync := false, enNow := c.enNew, copyEn := c.enNew }, d', { sent := [f], time := t })
     else ({ c with enResync := true }, d', { sent := [f], time := t })
@@ -118,7 +119,7 @@ def writeDiv (c : Client) (d : Device) (o : Outcome) : Client × Device × StepO
   | .error e => (c, d, { err := some e })
   | .ok f =>
     let d' := if applies o then devApplyDiv d f else d
-    let (seen, t) := ackSeen c o
+    let (seen, t) := ackSeen c o Gen.Comm.ackTimeoutDiv
     if seen then
       ({ c with divResync := false, divNow := c.divNew, copyDiv := c.divNew }, d', { sent := [f], time := t })
     else ({ c with divResync := true }, d', { sent := [f], time := t })
